@@ -281,7 +281,11 @@ class HostGen:
         c = self.body_scope(sc)
         c.vars[var] = [start + step * j for j in range(count)]
         body = self.block(c, depth + 1, r.randrange(1, 4))
-        st = {"op": "loop", "var": var, "start": start, "stop": start + step * count, "step": step,
+        stop = start + step * count
+        if r.random() < 0.3:
+            # a stop that the index never hits exactly (step does not divide the range), or an empty range with stop < start
+            stop = stop - r.randrange(step) if count else start - r.choice([0, 1, 3])
+        st = {"op": "loop", "var": var, "start": start, "stop": stop, "step": step,
               "form": r.choice(["ctx", "cb"]), "body": body}
         if top and not self.manual_registers and r.random() < 0.25:
             st["reg"] = r.choice(["R0", "R0", "R1", "R5", "R15"])   # explicit loop register (nothing else holds registers here)
